@@ -1484,13 +1484,20 @@ fn install_logger(s: &mut Stakker, lvls: &[u32]) {
         fn kv_arr(&mut self, _: Option<&str>) {}
         fn kv_arrend(&mut self, _: Option<&str>) {}
     }
-    s.set_logger(filter_of(lvls), move |_core, r| {
+    // VERIF_LOGGER_REENTER=1: the logger behaves like one that lazily starts a back-end while it handles a record: on
+    // every Open record it allocates a LogID of its own through the public `Core::log_span_open` (nothing is delivered
+    // for that nested call: the logger is taken out of Core while it runs).  Real-trace-only pass of ./check C20.
+    let reenter = std::env::var("VERIF_LOGGER_REENTER").map(|v| v == "1").unwrap_or(false);
+    s.set_logger(filter_of(lvls), move |core, r| {
         let mut v = V {
             parent: 0,
             marker: 0,
         };
         (r.kvscan)(&mut v);
         ev(format!("log {} {} {} {}", r.id, r.level as u32, v.parent, v.marker));
+        if reenter && r.level == LogLevel::Open {
+            let _ = core.log_span_open("verif-nested", 0, |_| {});
+        }
     });
 }
 #[cfg(not(feature = "logger"))]
